@@ -10,6 +10,7 @@ CONSTANTS
   StratSet <- DeepStrats
   AllCands = FALSE
   AllDraws = FALSE
+  BestIsMember = FALSE
 INVARIANT ComponentsWellFormed
 INVARIANT AtLeastOneMutated
 INVARIANT ExpContiguousRun
